@@ -16,6 +16,30 @@ import (
 // T.EndpointMethods is verified against "every returned method requires
 // authentication" (unless T.Path() returns the exempt path) and against purity.
 func (x *Exec) globalObligations(prop string) {
+	// "ghost global-atomic <var> [Cxx]" (file level): a package-level variable shared by goroutines
+	// without a lock must be of a sync/atomic type
+	for _, d := range x.C.Directives {
+		if d.Kind != "ghost" || !strings.HasPrefix(d.Text, "global-atomic ") {
+			continue
+		}
+		f := strings.Fields(d.Text)
+		if len(f) < 3 || strings.Trim(f[2], "[]") != prop {
+			continue
+		}
+		pkg := x.L.pkgOf(d.Pkg)
+		if pkg == nil {
+			continue
+		}
+		ok := false
+		typ := "?"
+		if obj, isVar := pkg.Types.Scope().Lookup(f[1]).(*types.Var); isVar {
+			typ = obj.Type().String()
+			ok = strings.HasPrefix(typ, "sync/atomic.") || strings.HasPrefix(typ, "*sync/atomic.")
+		}
+		name := shortPkg(d.Pkg) + "." + f[1] + "#guarded:global-atomic"
+		x.Obls = append(x.Obls, &Obligation{Name: name, Func: shortPkg(d.Pkg) + "." + f[1], Kind: "guarded", Label: "global-atomic", Goal: BoolLit(ok),
+			Pos: fmt.Sprintf("%s:%d (type %s)", d.File, d.Line, typ), Props: []string{prop}, Tag: prop})
+	}
 	for _, d := range x.C.Directives {
 		if d.Kind != "endpoint" || prop != "C20" {
 			continue
